@@ -7,6 +7,7 @@
 
 struct SchedGen {
   uint64_t cur_prog = UINT64_MAX; Case base; uint32_t nsteps = 0, nweak = 0; int nthreads = 0; std::vector<uint32_t> conflict_steps; bool probe_ok = false;
+  struct AddrInfo { uint32_t addr; uint32_t cnt[4]; uint32_t writes[4]; int nthr; }; std::vector<AddrInfo> shared_addrs;   // addresses that >= 2 threads access, at least once with a write: per-thread access counts
   static const uint64_t PER = 400;
 
   // ---- programs
@@ -14,9 +15,26 @@ struct SchedGen {
     static const std::vector<size_t> c = { 16, 48, 8*KiB, 8*KiB, 64*KiB, 100*KiB, 300*KiB, 1*MiB, 1000, 200 };
     (void)mode; return ch.of(c);
   }
+  // one page of the owner, two other threads free blocks of it while the owner collects / allocates the same class: the three-party races on
+  // page->xthread_free and heap->thread_delayed_free (first remote free = delayed path, second = direct push, owner = list take-over)
+  Case gen_contended_program(const std::string& mode, Chooser& ch) {
+    Case c; static const std::vector<size_t> cls = { 2048, 2048, 1000, 8*KiB, 16, 300, 20000, 100*KiB }; size_t n = ch.of(cls); size_t n2 = ch.chance(1, 3) ? ch.of(cls) : n;
+    int k = (int)ch.range(3, 8); auto O = [&](Op op, int t) { op.u("t", (uint64_t)t); c.push_back(op); };
+    for (int s = 0; s < k; s++) O(Op("A").u("s", (uint64_t)s).u("n", (s == k - 1 ? n2 : n)), 0);
+    std::vector<int> order(k); for (int i = 0; i < k; i++) order[i] = i; for (int i = k - 1; i > 0; i--) std::swap(order[i], order[ch.pick((size_t)i + 1)]);
+    int nf = (int)ch.range(2, (uint64_t)k); for (int i = 0; i < nf; i++) O(Op("F").u("s", (uint64_t)order[i]), 1 + (i % 2 == 0 ? 0 : 1) * (int)1);   // alternate between thread 1 and 2
+    int next = k;
+    auto owner_work = [&](int cnt) { for (int i = 0; i < cnt; i++) { unsigned w = (unsigned)ch.pick(5);
+      if (w == 0) O(Op("C").u("force", ch.chance(1, 4)), 0); else if (w == 1 && nf < k) O(Op("F").u("s", (uint64_t)order[nf++]), 0); else if (w == 2) O(Op("V"), 0); else O(Op("A").u("s", (uint64_t)next++).u("n", n), 0); } };
+    owner_work((int)ch.range(1, 4)); O(Op("J"), 0); owner_work((int)ch.range(2, 5));
+    O(Op("VA"), 0); for (int s = 0; s < next; s++) O(Op("F").u("s", (uint64_t)s), 0); if (mode == "C02" || mode == "C08") O(Op("Q"), 0);
+    for (size_t i = 0; i < c.size(); i++) c[i].u("i", i);
+    return c;
+  }
   Case gen_program(const std::string& mode, Chooser& ch) {
     if (mode == "C08" && ch.chance(1, 4)) return gen_pc_program(ch);
     if (mode == "C08" && ch.chance(1, 3)) return gen_keeper_program(ch);
+    if ((mode == "C02" || mode == "C08") && ch.chance(1, 4)) return gen_contended_program(mode, ch);
     if (mode == "C14") return ch.chance(1, 2) ? gen_bitmap_program(ch) : gen_arena_program(ch);
     Case c; int T = (int)ch.range(2, 3);
     // options
@@ -87,6 +105,8 @@ struct SchedGen {
     std::unordered_map<uint32_t, uint32_t> who, wr;
     for (uint32_t i = 0; i < n; i++) { who[g_trace->rec[i].addr] |= 1u << g_trace->rec[i].thread; if (g_trace->rec[i].kind != MI_VF_LOAD) wr[g_trace->rec[i].addr] = 1; }
     for (uint32_t i = 0; i < n; i++) { uint32_t w = who[g_trace->rec[i].addr]; if ((w & (w - 1)) != 0 && wr.count(g_trace->rec[i].addr)) conflict_steps.push_back(i + 1); }
+    shared_addrs.clear(); { std::map<uint32_t, AddrInfo> m; for (uint32_t i = 0; i < n; i++) { uint32_t a = g_trace->rec[i].addr; uint32_t w = who[a]; if ((w & (w - 1)) == 0 || !wr.count(a)) continue; AddrInfo& ai = m[a]; ai.addr = a; if (g_trace->rec[i].thread < 4) { ai.cnt[g_trace->rec[i].thread]++; if (g_trace->rec[i].kind != MI_VF_LOAD) ai.writes[g_trace->rec[i].thread]++; } }
+      for (auto& kv : m) { kv.second.nthr = 0; for (int t = 0; t < 4; t++) if (kv.second.cnt[t]) kv.second.nthr++; shared_addrs.push_back(kv.second); } }
     probe_ok = true;
   }
 
@@ -109,9 +129,39 @@ struct SchedGen {
       c.push_back(Op("P").u("step", step).u("to", (uint64_t)((tt + 1) % (uint64_t)T)));
       c.push_back(Op("P").u("step", step).u("to", (uint64_t)((tt + 2) % (uint64_t)T)));
       if (conflict_steps.size() > 0 && sch.chance(1, 2)) { /* keep baseline priorities */ } else add_prio();
+      if (sch.chance(1, 4)) c.push_back(Op("Y").u("skip", sch.chance(3, 4) ? 0 : sch.range(1, 6)).u("n", sch.range(4, 9)));   // the allocator's bounded waits give up
       return c;
     }
     // sampled multi-preemption schedules
+    if (!shared_addrs.empty() && sch.chance(2, 5)) {
+      // address-directed schedule: 2-4 rules on one shared location (three-thread locations preferred): "thread T, about to make its k-th access to X -> run U"
+      size_t pick = sch.pick(shared_addrs.size()); for (int tries = 0; tries < 3 && shared_addrs[pick].nthr < 3; tries++) pick = sch.pick(shared_addrs.size());
+      const AddrInfo& ai = shared_addrs[pick]; std::vector<int> thr; for (int t = 0; t < 4; t++) if (ai.cnt[t]) thr.push_back(t);
+      if (sch.chance(2, 3)) {
+        // ABA pattern: victim A is stopped after its i-th access to X (typically the load of a load..CAS window); B, and then C, get to write X inside the
+        // window -- either one after the other (priorities), or with A making 1-2 more accesses in between (second rule); optionally C (often the owner,
+        // which would otherwise run ahead) is first parked at one of its own accesses to X.
+        int A = thr[sch.pick(thr.size())]; std::vector<int> wr; for (int t : thr) if (t != A && ai.writes[t]) wr.push_back(t);
+        if (!wr.empty()) {
+          int B = wr[sch.pick(wr.size())]; int C = wr[sch.pick(wr.size())]; if (C == B && wr.size() > 1) C = wr[(std::find(wr.begin(), wr.end(), B) - wr.begin() + 1) % wr.size()];
+          uint64_t m = 1 + sch.range(1, std::min<uint64_t>(ai.cnt[A], 16)), extra = sch.pick(3);
+          if (sch.chance(2, 3)) c.push_back(Op("G").u("t", (uint64_t)C).u("a", ai.addr).u("k", sch.range(1, std::min<uint64_t>(ai.cnt[C] + 1, 16))).u("to", (uint64_t)A));
+          c.push_back(Op("G").u("t", (uint64_t)A).u("a", ai.addr).u("k", m).u("to", (uint64_t)B));
+          std::string order;
+          if (extra > 0) { c.push_back(Op("G").u("t", (uint64_t)A).u("a", ai.addr).u("k", m + extra).u("to", (uint64_t)C)); order = { (char)('0' + A), (char)('0' + B), (char)('0' + C) }; }
+          else order = { (char)('0' + C), (char)('0' + B), (char)('0' + A) };
+          if (C == B) order = { (char)('0' + A), (char)('0' + B) };
+          if (sch.chance(3, 4)) c.push_back(Op("R").s("order", order)); else add_prio();
+          return c;
+        }
+      }
+      int nr = (int)sch.range(2, 4);
+      for (int i = 0; i < nr; i++) { int t = thr[sch.pick(thr.size())]; int to = thr[sch.pick(thr.size())]; if (to == t) to = thr[(std::find(thr.begin(), thr.end(), t) - thr.begin() + 1) % thr.size()];
+        uint64_t kmax = std::min<uint64_t>(ai.cnt[t] + 2, 24); c.push_back(Op("G").u("t", (uint64_t)t).u("a", ai.addr).u("k", sch.range(1, kmax)).u("to", (uint64_t)to)); }
+      add_prio();
+      if (sch.chance(1, 6)) c.push_back(Op("Y").u("skip", 0).u("n", sch.range(4, 9)));
+      return c;
+    }
     unsigned kind = (unsigned)sch.pick(4); int maxp = thorough ? 5 : 3;
     int np = (int)sch.range(2, (uint64_t)maxp);
     for (int i = 0; i < np; i++) {
@@ -121,6 +171,7 @@ struct SchedGen {
       c.push_back(Op("P").u("step", step).u("to", sch.pick((size_t)T)));
     }
     add_prio();
+    if (sch.chance(1, 5)) c.push_back(Op("Y").u("skip", sch.chance(3, 4) ? 0 : sch.range(1, 6)).u("n", sch.range(4, 9)));
     if (nweak > 0 && sch.chance(1, 2)) { int nx = (int)sch.range(1, thorough ? 3 : 2); for (int i = 0; i < nx; i++) c.push_back(Op("X").u("idx", sch.range(0, nweak - 1 + nweak / 4))); }
     return c;
   }
